@@ -48,6 +48,7 @@ type Addr struct {
 type modEntry struct {
 	heap string // "" = any heap
 	id   Term
+	low  Term // non-empty: the whole region of ids >= low (scratch state owned by an object), any heap
 }
 
 type loopInfo struct {
@@ -436,7 +437,9 @@ func (fv *FuncVC) writeAddr(a *Addr, v Term) {
 func (fv *FuncVC) writable(heap string, id Term) Term {
 	ds := []Term{app(">=", id, fv.alloc0)}
 	for _, m := range fv.mods {
-		if m.heap == "" || m.heap == heap {
+		if m.low != "" {
+			ds = append(ds, app(">=", id, m.low))
+		} else if m.heap == "" || m.heap == heap {
 			ds = append(ds, eq(id, m.id))
 		}
 	}
@@ -746,6 +749,9 @@ func (fv *FuncVC) contractHeaps(cc *FuncContract, com *ssa.CallCommon) (heaps []
 	set := map[string]bool{}
 	for _, m := range cc.Modifies {
 		for _, me := range fv.modTargets(env, m) {
+			if me.low != "" {
+				return nil, false // region effect: any heap
+			}
 			set[me.heap] = true
 		}
 	}
